@@ -126,6 +126,19 @@ def build_case(sd):
         if rng.random() < 0.15:
             u = u ** rng.choice([2, 3])
         fac.append(u)
+    rng2 = random.Random(sd * 15485863 + 3)
+    if rng2.random() < 0.2 and len(pool) >= 3:
+        # two squared U sharing an index that occurs nowhere else (each square resolves to a
+        # delta with identical indices, i.e. the dimension of the space), optionally next to an
+        # ordinary resolvable pair
+        p, q, r = rng2.sample(pool, 3)
+        second = rng2.choice([U(r, q), U(q, r)]) if rng2.random() < 0.8 else U(p, q)
+        first = U(p, q) if rng2.random() < 0.7 else U(q, p)
+        fac = [first ** 2, second ** 2]
+        rest = [s_ for s_ in pool if s_ not in (p, q, r)]
+        if len(rest) >= 2 and rng2.random() < 0.4:
+            fac += [U(p, rest[0]), U(p, rest[1])]
+        pool = [s_ for s_ in pool if s_ != q] or pool
     if count_u(Mul(*fac)) > MAXDEG:       # bound on the total degree in U
         fac = fac[:2]
         if count_u(Mul(*fac)) > MAXDEG:
